@@ -46,6 +46,21 @@ namespace ip {
 		close(ec);
 	}
 
+	void tcp::acceptor::open(tcp protocol, boost::system::error_code& ec)
+	{
+		// socket::open() only knows how to close a plain socket. An acceptor
+		// that is opened again must stop listening and abort its accept
+		close(ec);
+		socket::open(protocol, ec);
+	}
+
+	void tcp::acceptor::open(tcp protocol)
+	{
+		boost::system::error_code ec;
+		open(protocol, ec);
+		if (ec) throw boost::system::system_error(ec);
+	}
+
 	void tcp::acceptor::listen(int qs)
 	{
 		boost::system::error_code ec;
